@@ -202,7 +202,10 @@ Record config := mkCfg {
   c_pool : bool;         (* pool_ != nullptr *)
   c_tp : bool;           (* pool_->m_thread_pool != nullptr *)
   c_maxr : Z;            (* pool_->m_max_refilling (== the function-static max_refilling) *)
-  c_thr : Z              (* pool_->m_refilling_threshold *)
+  c_thr : Z;             (* pool_->m_refilling_threshold *)
+  c_tne : bool           (* which FileCacheStore::evict is in the tree: true = a trim (count == -1) at or
+                            beyond the media file's size returns 0 without touching the file
+                            (repo_patches/C17-trim-no-extend.diff); false = it always ftruncate()s *)
 }.
 
 Definition set_st (w : world) (st : store) : world :=
@@ -396,6 +399,7 @@ Section ReadPath.
   Definition evict (w : world) (off cnt : Z) : world :=
     let st := w_st w in
     if cnt =? -1 then
+      if c_tne cfg && (zlen (s_media st) <=? off) then w else
       add_log (set_st w (mkStore (s_actual st) (removeFrom (s_filled st) off) (resize (s_media st) off)
                                  (s_td st) (s_refilling st))) (EvMedT off)
     else
